@@ -344,51 +344,33 @@ def run(ctx: Ctx) -> None:
 
     # ---- R6 response_headers
     rh = repo.func("config", "Config.response_headers")
-    appends = [c for c in calls(rh) if call_name(c) and call_name(c).endswith(".append")]
-    order = []
-    for c in appends:
-        if c.args and isinstance(c.args[0], ast.Tuple) and c.args[0].elts and isinstance(c.args[0].elts[0], ast.Constant):
-            order.append((c.args[0].elts[0].value, c))
-    names = [n for n, _ in order]
-    d = [c for n, c in order if n == b"date"]
-    s = [c for n, c in order if n == b"server"]
-    a = [c for n, c in order if n == b"alt-svc"]
-    okd = len(d) == 1 and ("self.include_date_header", True) in guard_atoms(d[0]) and "format_date_time(time())" in norm(d[0].args[0].elts[1])
-    ctx.check("C19.R6", "config:Config.response_headers", "date", okd, "date header must be guarded by include_date_header and be format_date_time(time())", d[0] if d else rh)
-    oks = len(s) == 1 and ("self.include_server_header", True) in guard_atoms(s[0]) and "protocol" in provenance(s[0].args[0].elts[1], rh).leaves and "hypercorn-" in norm(s[0].args[0].elts[1])
-    ctx.check("C19.R6", "config:Config.response_headers", "server", oks, "server header must be guarded by include_server_header and be hypercorn-<protocol>", s[0] if s else rh)
-    oka = len(a) >= 1 and names and names[:2] == [b"date", b"server"] and all(n == b"alt-svc" for n in names[2:]) and "self.alt_svc_headers" in provenance(a[0].args[0].elts[1], rh).leaves
-    ctx.check("C19.R6", "config:Config.response_headers", "order date, server, alt-svc", bool(oka), f"append order is {names}", rh)
-    # emission condition of each header class, compared as a truth table over the switches: an
-    # extra condition (e.g. an early return when both switches are off) silently drops headers
-    def canon(txt: str):
-        if txt == "self.include_date_header":
-            return "date"
-        if txt == "self.include_server_header":
-            return "server"
-        if txt in ("not self.alt_svc_headers", "len(self.alt_svc_headers) == 0"):
-            return "alt_empty"
-        if txt in ("self.alt_svc_headers", "len(self.alt_svc_headers) > 0"):
-            return "alt_nonempty"
-        return None
-    cfg_alt = [c for c in a if "self.alt_svc_headers" in provenance(c.args[0].elts[1], rh).leaves]
-    for label, sites, expected, fixed in (
-        ("date", d, lambda e: e.get("date", False), {"date": True}),
-        ("date", d, lambda e: e.get("date", False), {"date": False}),
-        ("server", s, lambda e: e.get("server", False), {"server": True}),
-        ("server", s, lambda e: e.get("server", False), {"server": False}),
-        ("alt-svc", cfg_alt, lambda e: True, {"alt_empty": False, "alt_nonempty": True}),
-    ):
-        for site in sites:
-            cex = guards_table(guards(site), expected, fixed, canon)
-            ctx.check("C19.R6", "config:Config.response_headers", f"{label} emitted iff its switch ({sorted(fixed.items())})", cex is None,
-                      f"{label} header emission differs from its switch under {cex}; guards: {[(norm(t), p_) for t, p_ in guards(site)]}", site)
-    rets = [n for n in walk_local(rh) if isinstance(n, ast.Return)]
-    lists = {dotted(c.func.value) for _, c in order}
-    okr = len(lists) == 1 and any(dotted(r.value) in lists for r in rets if r.value is not None) and all(
-        r.value is not None and (dotted(r.value) in lists or (isinstance(r.value, ast.List) and not r.value.elts)) for r in rets
-    )
-    ctx.check("C19.R6", "config:Config.response_headers", "returns the list it built", okr, "response_headers must return the list that received the appends", rh)
+    from ..pred import eval_function as _evf6
+
+    h3 = ["h3", "h3-29"]
+    n6 = 0
+    bad6 = None
+    for date in (True, False):
+        for server in (True, False):
+            for alt in ([], ['h3=":443"; ma=60'], ["a", "b"]):
+                for quic in ([], [("::", 4433)], [("0.0.0.0", 443), ("::", 444)]):
+                    want = ([(b"date", b"DATE")] if date else []) + ([(b"server", b"hypercorn-h2")] if server else []) + [(b"alt-svc", a_.encode()) for a_ in alt]
+                    if not alt and quic:
+                        want += [(b"alt-svc", b'%s=":%d"; ma=3600' % (v_.encode(), addr_[1])) for v_ in h3 for addr_ in quic]
+                    env6 = {"self.include_date_header": date, "self.include_server_header": server, "self.alt_svc_headers": alt, "self._quic_addresses": quic, "protocol": "h2", "format_date_time(time())": "DATE", "H3_ALPN": h3}
+                    try:
+                        got = _evf6(rh, env6)
+                        got = [tuple(x) for x in got] if isinstance(got, list) else got
+                    except Exception as error:
+                        got = f"raises / not evaluable: {error}"
+                    n6 += 1
+                    if got != want and bad6 is None:
+                        bad6 = (date, server, alt, quic, got, want)
+    ctx.check("C19.R6", "config:Config.response_headers", f"decision table over the switches ({n6} configurations): date (RFC 7231 date of now), server, alt-svc values in that order, each exactly under its switch", bad6 is None,
+              "" if bad6 is None else f"include_date_header={bad6[0]}, include_server_header={bad6[1]}, alt_svc_headers={bad6[2]}, quic addresses={bad6[3]}: returns {bad6[4]}, expected {bad6[5]}", rh)
+    uses_time = [c for c in calls(rh) if call_name(c) == "format_date_time" and len(c.args) == 1 and norm(c.args[0]) == "time()"]
+    ctx.check("C19.R6", "config:Config.response_headers", "date value is format_date_time(time())", len(uses_time) == 1, "the date header must be the RFC 7231 rendering of the current time", uses_time[0] if uses_time else rh)
+    imp = [n for n in repo.module("config").tree.body if isinstance(n, ast.ImportFrom) and n.module == "wsgiref.handlers" and any(a.name == "format_date_time" for a in n.names)]
+    ctx.check("C19.R6", "config:Config.response_headers", "format_date_time is wsgiref.handlers.format_date_time", len(imp) == 1, "RFC 7231 date formatting must come from wsgiref.handlers", None)
 
     # ---- R7 _create_sockets
     cs = repo.func("config", "Config._create_sockets")
